@@ -1,4 +1,6 @@
-package main
+package VERIFPKG
+
+// Small helpers shared by all harness packages (no imports on purpose).
 
 func itoaV(i int) string {
 	if i == 0 {
@@ -52,8 +54,17 @@ func tryRun(f func()) (panicked bool, msg string) {
 	return false, ""
 }
 
-// symBuf: a buffer of l symbolic bytes, l a choice in 0..n.
+// symBuf: a string of l symbolic bytes, l a choice in 0..n.
 func symBuf(name string, n int) string {
 	l := verifChoice(name+".len", n+1)
 	return verifString(name, l)
+}
+
+// verifIntSlice: n symbolic ints name[0..n-1].
+func verifIntSlice(name string, n int) []int {
+	s := make([]int, n)
+	for i := range s {
+		s[i] = verifInt(name + "[" + itoaV(i) + "]")
+	}
+	return s
 }
